@@ -14,6 +14,7 @@ import (
 	"bytes"
 	"context"
 	"encoding/json"
+	"encoding/xml"
 	"fmt"
 	"reflect"
 	"sort"
@@ -133,8 +134,12 @@ func genElem(t *rapid.T, class string) string {
 		}
 		b, _ := json.Marshal(v)
 		return string(b)
-	case "yaml", "xml":
+	case "yaml":
 		return plain.Draw(t, "e")
+	case "xml":
+		// character data is whitespace-trimmed by the xml reader (as it is for
+		// str / jsonl): leading and trailing blanks are outside the alphabet
+		return strings.TrimSpace(plain.Draw(t, "e"))
 	case "path":
 		s := strings.ReplaceAll(plain.Draw(t, "e"), "/", "")
 		if s == "" || s == "." || s == ".." {
@@ -447,6 +452,26 @@ func yamlPlain(e string) bool {
 	return ok && s == e
 }
 
+// xmlCast reports whether the xml reader turns the character data e into
+// something other than a string (mxj's cast of numbers and booleans).
+func xmlCast(e string) bool {
+	if e == "" {
+		return false
+	}
+	var esc bytes.Buffer
+	xml.EscapeText(&esc, []byte(e))
+	v, err := lang.UnmarshalDataBuffered(lang.ShellProcess, []byte("<xml><list>"+esc.String()+"</list></xml>"), "xml")
+	if err != nil {
+		return false
+	}
+	m, ok := v.(map[string]any)
+	if !ok {
+		return false
+	}
+	_, isStr := m["list"].(string)
+	return !isStr
+}
+
 func known(c Case, v *core.Violation) string {
 	if c.Mode == "foreach" && v.Kind == "foreach-mismatch" && lastGot.ok {
 		// foreach does not run its body for an empty element: the bodies saw
@@ -476,6 +501,16 @@ func known(c Case, v *core.Violation) string {
 		// nothing reads it back
 		if text, err := write(c); err == nil && bytes.HasPrefix(text, []byte("<xml<xml")) {
 			return "C15-xml-array-writer-malformed"
+		}
+	}
+	if c.Type == "xml" && v.Kind != "hang" && v.Kind != "write-error" {
+		// the xml reader lets mxj cast character data: an element that looks
+		// like a number or a boolean comes back as float64 / bool, which the
+		// array reader cannot hand out ("no support for float64 types in XML")
+		for _, e := range c.List {
+			if xmlCast(e) {
+				return "C15-xml-reader-casts-elements"
+			}
 		}
 	}
 	if c.Type == "jsonc" && lastGot.ok && len(lastGot.list) == len(c.List) && len(c.List) > 1 {
